@@ -45,7 +45,8 @@ VALID = ['x = 1\n', 'def f(a, b=2, *c, d, **e):\n    return a\n', 'class A(B, me
          'for a.b, c[0] in d:\n    pass\nprint([(y := f(x)) for x in z])\n',
          'class K:\n    """doc"""\n    def m(self):\n        \'doc\'\n        return lambda: (yield)\n',
          'del a, (b, c), d[0], e.f\n[a, *b] = c\n(a) = 1\n', 'x = f"{a!r:>{w}} {b=} {c:%Y}"\n',
-         'from __future__ import annotations\nimport os.path as p, sys\nfrom a.b import (c as d, e,)\nfrom . import *\n']
+         'from __future__ import annotations\nimport os.path as p, sys\nfrom a.b import (c as d, e,)\nfrom . import *\n',
+         'r = [(a := 1) for [i] in x]\ns = {(b := k) for (k, [m, n]) in y if (c := m)}\n', 't = [(u := z) for z in q if u]\n']
 
 
 def rng(seed, stream, index):
@@ -128,12 +129,28 @@ def corpus(r, maxlen=6000):
     return 'x = 1\n'
 
 
+FS_OPEN = ['f"', "f'", 'F"""', "f\'\'\'", 'rf"', "Rf'", 'fr"""']
+FS_BITS = ['{a', '{a!r', '{a:', '{a:{w', '{a:>{w}', '}', '}}', '{{', 'text', ' ', '\t', '\x0c', '\x0b', '\n', '\r\n', '\\\n', '\\N{DASH}', '#c', ':=', '=',
+           '"', "'", '"""', "\'\'\'", '{f"', "{f'{b", '[0]', '(', ')', '\x1c', '\xa0', 'lambda', 'x', '1']
+
+
+def fstrings(r):
+    out = []
+    for _ in range(r.randint(1, 3)):
+        s = r.choice(['', 'x = ', 'print(', '    ']) + r.choice(FS_OPEN)
+        for _ in range(r.randint(1, 7)):
+            s += r.choice(FS_BITS)
+        s += r.choice(['"', "'", '"""', "\'\'\'", '', '\n']) + r.choice(['\n', '', ')\n', '\r'])
+        out.append(s)
+    return ''.join(out)
+
+
 def derived_any(r):
     return derived(r, r.choice(['3.6', '3.8', '3.10', '3.12', '3.14']))
 
 
 KINDS = [('garbage', garbage, 25), ('lines', lines, 15), ('oneliner', oneliner, 30), ('valid', valid, 10),
-         ('mutate', mutate, 15), ('corpus', corpus, 5), ('derived', derived_any, 10)]
+         ('mutate', mutate, 15), ('corpus', corpus, 5), ('derived', derived_any, 10), ('fstrings', fstrings, 20)]
 
 
 def text_case(seed, stream, index, kinds=None):
